@@ -9,6 +9,7 @@ Section Sound.
 Variable fparse : bytes -> option bytes -> bytes -> bool.
 Variable fp : bytes -> option bytes -> bytes -> option bool.
 Variable U : list (bytes * option bytes * bytes).
+Variable lax : bool.
 
 Notation exec' := (texec fparse).
 Notation call' := (call (list tok) t_detect t_extract fparse).
@@ -317,19 +318,27 @@ Proof.
   right. destruct (mem tag (seen s)) eqn:E; [|reflexivity]. rewrite (Hs tag E) in H. discriminate.
 Qed.
 
-(* what a successful [consumed] gives on the concrete side *)
+(* what a successful [consumed] gives on the concrete side: if the parser accepts, the consumed state; if it rejects,
+   the analysis was in lax mode *)
 Lemma consumed_sound : forall S S' (s : tst) ty l tag r d x rest,
   G S s -> cur s = (tag, x) :: rest -> matches r (map fst rest) ->
-  consumed fp U S ty l tag r d = Ok S' ->
-  fparse ty l x = true /\ forall it, G S' (bind _ (add_item _ (popped s tag rest) it) d true).
+  consumed fp U lax S ty l tag r d = Ok S' ->
+  (fparse ty l x = true -> forall it, G S' (bind _ (add_item _ (popped s tag rest) it) d true)) /\
+  (fparse ty l x = false -> lax = true).
 Proof.
   intros S S' s ty l tag r d x rest HG Hc Hm H. unfold consumed in H.
-  destruct (verdict fp U ty l tag) as [[|]|] eqn:V; try discriminate.
-  destruct (consume S tag r) as [S0|] eqn:C; [|discriminate]. inversion H; subst; clear H.
   assert (Hgood : good (tag, x)).
   { destruct HG as [_ [Hg _]]. rewrite Hc in Hg. inversion Hg; assumption. }
-  split; [exact (verdict_true ty l (tag, x) V Hgood)|].
-  intro it. apply G_bind. apply G_add_item. exact (consume_sound S S0 s tag r x rest HG Hc Hm C).
+  assert (CONS : forall S0, consume S tag r = Some S0 -> forall it, G (abind S0 d true) (bind _ (add_item _ (popped s tag rest) it) d true)).
+  { intros S0 C it. apply G_bind. apply G_add_item. exact (consume_sound S S0 s tag r x rest HG Hc Hm C). }
+  destruct (verdict fp U ty l tag) as [[|]|] eqn:V.
+  - destruct (consume S tag r) as [S0|] eqn:C; [|discriminate]. inversion H; subst; clear H.
+    split; [intros _; apply CONS; reflexivity|]. intro F. pose proof (verdict_true ty l (tag, x) V Hgood) as T. cbn [snd] in T. rewrite T in F. discriminate.
+  - unfold rej in H. destruct lax; [|discriminate]. split; [|reflexivity].
+    intro T. unfold verdict in V. destruct (inU U (ty, l, tag)) eqn:E; [|discriminate].
+    pose proof (Hgood ty l false E V) as T2. cbn [snd] in T2. rewrite T2 in T. discriminate.
+  - destruct lax; [|discriminate]. destruct (consume S tag r) as [S0|] eqn:C; [|discriminate]. inversion H; subst; clear H.
+    split; [intros _; apply CONS; reflexivity | reflexivity].
 Qed.
 
 Lemma afirst_sound : forall ls a x rest base,
@@ -359,73 +368,126 @@ Lemma first_letter_head : forall (s : tst) a x rest base ls, cur s = (a, x) :: r
   first_letter (list tok) t_detect (cur s) base ls = afirst_letter a base ls.
 Proof. intros s a x rest base ls H. rewrite H. apply afirst_sound. Qed.
 
-Lemma acall1_sound : forall x S h S' (s : tst),
-  acall1 fp U x S h = Ok S' -> G S s -> cur_in h (cur s) ->
-  exists p s1 d, call' x s = Some (COk _ p s1, d) /\ G S' (bind _ s1 d p).
+(* a mandatory extraction at a matching head: either the duplicate check fires or the field is popped *)
+Lemma extract_field_req : forall (s : tst) tag x rest,
+  cur s = (tag, x) :: rest ->
+  extract_field (list tok) t_detect t_extract s tag false = XErr _ (EDuplicate tag) \/
+  extract_field (list tok) t_detect t_extract s tag false = XOk _ x (popped s tag rest).
 Proof.
-  intros x S h S' s H HG Hh. destruct x; cbn [acall1] in H; try discriminate; cbn [call].
+  intros s tag x rest Hc. unfold extract_field.
+  destruct (negb (dup s) && mem tag (seen s) && negb false) eqn:E; [left; reflexivity|].
+  right. rewrite Hc. cbn [t_detect t_extract]. rewrite bytes_eqb_refl. reflexivity.
+Qed.
+
+Definition call_result (x : stmt) (S' : ast) (s : tst) : Prop :=
+  (exists p s1 d, call' x s = Some (COk _ p s1, d) /\ G S' (bind _ s1 d p)) \/
+  (lax = true /\ exists e s1 d, call' x s = Some (CErr _ e s1, d)).
+
+Lemma acall1_sound : forall x S h S' (s : tst),
+  acall1 fp U lax x S h = Ok S' -> G S s -> cur_in h (cur s) -> call_result x S' s.
+Proof.
+  intros x S h S' s H HG Hh. unfold call_result. destruct x; cbn [acall1] in H; try discriminate; cbn [call].
   - (* SReq *)
-    destruct h as [|a r]; [discriminate|]. destruct (bytes_eqb a tag) eqn:Ea; [|discriminate].
-    apply bytes_eqb_eq in Ea. subst a. destruct (nodup_ok S tag) eqn:En; [|discriminate].
-    destruct (cur_in_cons _ _ _ Hh) as [x [rest [Hc Hm]]].
-    destruct (consumed_sound S S' s ty None tag r d x rest HG Hc Hm H) as [Hp HS].
-    unfold call_req. rewrite (extract_field_ok s tag x rest false Hc).
-    + rewrite Hp. eexists _, _, _. split; [reflexivity | apply HS].
-    + destruct (nodup_ok_sound S s tag HG En) as [K|K]; [left; exact K | right; left; exact K].
+    destruct h as [|a r].
+    + unfold rej in H. destruct lax; [|discriminate]. right. split; [reflexivity|].
+      unfold cur_in in Hh. cbn [hd_in] in Hh. destruct (cur s) as [|k c] eqn:Ec; [|discriminate].
+      unfold call_req, extract_field. rewrite Ec. cbn [t_detect].
+      destruct (negb (dup s) && mem tag (seen s) && negb false); eexists _, _, _; reflexivity.
+    + destruct (cur_in_cons _ _ _ Hh) as [x [rest [Hc Hm]]]. destruct (bytes_eqb a tag) eqn:Ea.
+      * apply bytes_eqb_eq in Ea. subst a.
+        destruct (nodup_ok S tag || lax) eqn:En; [|discriminate].
+        destruct (consumed_sound S S' s ty None tag r d x rest HG Hc Hm H) as [HS HF].
+        unfold call_req.
+        assert (EX : extract_field (list tok) t_detect t_extract s tag false = XOk _ x (popped s tag rest) \/
+                     (lax = true /\ extract_field (list tok) t_detect t_extract s tag false = XErr _ (EDuplicate tag))).
+        { destruct (nodup_ok S tag) eqn:En2.
+          - left. apply (extract_field_ok s tag x rest false Hc).
+            destruct (nodup_ok_sound S s tag HG En2) as [K|K]; [left; exact K | right; left; exact K].
+          - cbn [orb] in En. destruct (extract_field_req s tag x rest Hc) as [K|K]; [right; split; [exact En | exact K] | left; exact K]. }
+        destruct EX as [EX|[EL EX]]; rewrite EX.
+        -- destruct (fparse ty None x) eqn:Hp.
+           ++ left. eexists _, _, _. split; [reflexivity | apply HS; reflexivity].
+           ++ right. split; [apply HF; reflexivity | eexists _, _, _; reflexivity].
+        -- right. split; [exact EL | eexists _, _, _; reflexivity].
+      * unfold rej in H. destruct lax; [|discriminate]. right. split; [reflexivity|].
+        unfold call_req, extract_field. rewrite (detect_head s a x rest tag Hc), Ea.
+        destruct (negb (dup s) && mem tag (seen s) && negb false); eexists _, _, _; reflexivity.
   - (* SOpt *)
     destruct h as [|a r].
-    + inversion H; subst; clear H. unfold call_opt. unfold cur_in in Hh. cbn [hd_in] in Hh.
+    + inversion H; subst; clear H. left. unfold call_opt. unfold cur_in in Hh. cbn [hd_in] in Hh.
       destruct (cur s) as [|k c] eqn:Ec; [|discriminate]. cbn [t_detect negb].
       eexists _, _, _. split; [reflexivity|]. apply G_bind. apply (G_with_cur S s _ HEmpty HG); [left; reflexivity|].
       unfold cur_in. rewrite Ec. reflexivity.
     + destruct (cur_in_cons _ _ _ Hh) as [x [rest [Hc Hm]]]. destruct (bytes_eqb a tag) eqn:Ea.
       * apply bytes_eqb_eq in Ea. subst a.
-        destruct (consumed_sound S S' s ty None tag r d x rest HG Hc Hm H) as [Hp HS].
+        destruct (consumed_sound S S' s ty None tag r d x rest HG Hc Hm H) as [HS HF].
         unfold call_opt. rewrite (detect_head s tag x rest tag Hc), bytes_eqb_refl. cbn [negb].
         rewrite (extract_field_ok s tag x rest true Hc) by (right; right; reflexivity).
-        rewrite Hp. eexists _, _, _. split; [reflexivity | apply HS].
-      * inversion H; subst; clear H. unfold call_opt. rewrite (detect_head s a x rest tag Hc), Ea. cbn [negb].
+        destruct (fparse ty None x) eqn:Hp.
+        -- left. eexists _, _, _. split; [reflexivity | apply HS; reflexivity].
+        -- right. split; [apply HF; reflexivity | eexists _, _, _; reflexivity].
+      * inversion H; subst; clear H. left. unfold call_opt. rewrite (detect_head s a x rest tag Hc), Ea. cbn [negb].
         eexists _, _, _. split; [reflexivity|]. apply G_bind. apply (G_with_cur S s _ (HCons a r) HG); [left; reflexivity | exact Hh].
   - (* SReqV *)
-    destruct h as [|a r]; [discriminate|]. destruct (afirst_letter a base letters7) as [l|] eqn:El; [|discriminate].
-    destruct (nodup_ok S a) eqn:En; [|discriminate].
-    destruct (cur_in_cons _ _ _ Hh) as [x [rest [Hc Hm]]].
-    destruct (consumed_sound S S' s fam (Some l) a r d x rest HG Hc Hm H) as [Hp HS].
-    unfold call_reqv. rewrite (first_letter_head s a x rest base letters7 Hc), El. rewrite (afirst_tag _ _ _ _ El).
-    rewrite (extract_field_ok s a x rest false Hc).
-    + rewrite Hp. eexists _, _, _. split; [reflexivity | apply HS].
-    + destruct (nodup_ok_sound S s a HG En) as [K|K]; [left; exact K | right; left; exact K].
+    destruct h as [|a r].
+    + unfold rej in H. destruct lax; [|discriminate]. right. split; [reflexivity|].
+      unfold cur_in in Hh. cbn [hd_in] in Hh. destruct (cur s) as [|k c] eqn:Ec; [|discriminate].
+      unfold call_reqv. rewrite Ec, first_letter_nil. eexists _, _, _; reflexivity.
+    + destruct (cur_in_cons _ _ _ Hh) as [x [rest [Hc Hm]]].
+      destruct (afirst_letter a base letters7) as [l|] eqn:El.
+      * destruct (nodup_ok S a || lax) eqn:En; [|discriminate].
+        destruct (consumed_sound S S' s fam (Some l) a r d x rest HG Hc Hm H) as [HS HF].
+        unfold call_reqv. rewrite (first_letter_head s a x rest base letters7 Hc), El. rewrite (afirst_tag _ _ _ _ El).
+        assert (EX : extract_field (list tok) t_detect t_extract s a false = XOk _ x (popped s a rest) \/
+                     (lax = true /\ extract_field (list tok) t_detect t_extract s a false = XErr _ (EDuplicate a))).
+        { destruct (nodup_ok S a) eqn:En2.
+          - left. apply (extract_field_ok s a x rest false Hc).
+            destruct (nodup_ok_sound S s a HG En2) as [K|K]; [left; exact K | right; left; exact K].
+          - cbn [orb] in En. destruct (extract_field_req s a x rest Hc) as [K|K]; [right; split; [exact En | exact K] | left; exact K]. }
+        destruct EX as [EX|[EL EX]]; rewrite EX.
+        -- destruct (fparse fam (Some l) x) eqn:Hp.
+           ++ left. eexists _, _, _. split; [reflexivity | apply HS; reflexivity].
+           ++ right. split; [apply HF; reflexivity | eexists _, _, _; reflexivity].
+        -- right. split; [exact EL | eexists _, _, _; reflexivity].
+      * unfold rej in H. destruct lax; [|discriminate]. right. split; [reflexivity|].
+        unfold call_reqv. rewrite (first_letter_head s a x rest base letters7 Hc), El. eexists _, _, _; reflexivity.
   - (* SOptV *)
     destruct h as [|a r].
-    + inversion H; subst; clear H. unfold call_optv. unfold cur_in in Hh. cbn [hd_in] in Hh.
+    + inversion H; subst; clear H. left. unfold call_optv. unfold cur_in in Hh. cbn [hd_in] in Hh.
       destruct (cur s) as [|k c] eqn:Ec; [|discriminate]. rewrite first_letter_nil.
       eexists _, _, _. split; [reflexivity|]. apply G_bind. apply (G_with_cur S s _ HEmpty HG); [left; reflexivity|].
       unfold cur_in. rewrite Ec. reflexivity.
     + destruct (cur_in_cons _ _ _ Hh) as [x [rest [Hc Hm]]]. destruct (afirst_letter a base letters7) as [l|] eqn:El.
-      * destruct (consumed_sound S S' s fam (Some l) a r d x rest HG Hc Hm H) as [Hp HS].
+      * destruct (consumed_sound S S' s fam (Some l) a r d x rest HG Hc Hm H) as [HS HF].
         unfold call_optv. rewrite (first_letter_head s a x rest base letters7 Hc), El. rewrite (afirst_tag _ _ _ _ El).
         rewrite (extract_field_ok s a x rest true Hc) by (right; right; reflexivity).
-        rewrite Hp. eexists _, _, _. split; [reflexivity | apply HS].
-      * inversion H; subst; clear H. unfold call_optv. rewrite (first_letter_head s a x rest base letters7 Hc), El.
+        destruct (fparse fam (Some l) x) eqn:Hp.
+        -- left. eexists _, _, _. split; [reflexivity | apply HS; reflexivity].
+        -- right. split; [apply HF; reflexivity | eexists _, _, _; reflexivity].
+      * inversion H; subst; clear H. left. unfold call_optv. rewrite (first_letter_head s a x rest base letters7 Hc), El.
         eexists _, _, _. split; [reflexivity|]. apply G_bind. apply (G_with_cur S s _ (HCons a r) HG); [left; reflexivity | exact Hh].
 Qed.
 
-Lemma acall_all_sound : forall x S hs S' (s : tst) h,
-  acall_all fp U x S hs = Ok S' -> G S s -> In h hs -> cur_in h (cur s) ->
-  exists p s1 d, call' x s = Some (COk _ p s1, d) /\ G S' (bind _ s1 d p).
+Lemma call_result_weaken : forall x A B (s : tst), (forall s', G A s' -> G B s') -> call_result x A s -> call_result x B s.
 Proof.
-  intros x S hs. induction hs as [|h0 r IH]; intros S' s h H HG Hin Hh; [contradiction|].
-  cbn [acall_all] in H. destruct (acall1 fp U x S h0) as [A|] eqn:E1; [|discriminate].
-  destruct (acall_all fp U x S r) as [B|] eqn:E2; [|discriminate]. inversion H; subst; clear H.
-  destruct Hin as [Hin|Hin].
-  - subst h0. destruct (acall1_sound x S h A s E1 HG Hh) as [p [s1 [d [Hc HS]]]].
-    exists p, s1, d. split; [exact Hc | apply ajoin_l; exact HS].
-  - destruct (IH B s h eq_refl HG Hin Hh) as [p [s1 [d [Hc HS]]]].
-    exists p, s1, d. split; [exact Hc | apply ajoin_r; exact HS].
+  intros x A B s W [[p [s1 [d [Hc HS]]]]|R]; [left | right; exact R].
+  exists p, s1, d. split; [exact Hc | apply W; exact HS].
 Qed.
 
-Lemma acall_sound : forall x S S' (s : tst), acall fp U x S = Ok S' -> G S s ->
-  exists p s1 d, call' x s = Some (COk _ p s1, d) /\ G S' (bind _ s1 d p).
+Lemma acall_all_sound : forall x S hs S' (s : tst) h,
+  acall_all fp U lax x S hs = Ok S' -> G S s -> In h hs -> cur_in h (cur s) -> call_result x S' s.
+Proof.
+  intros x S hs. induction hs as [|h0 r IH]; intros S' s h H HG Hin Hh; [contradiction|].
+  cbn [acall_all] in H. destruct (acall1 fp U lax x S h0) as [A|] eqn:E1; [|discriminate].
+  destruct (acall_all fp U lax x S r) as [B|] eqn:E2; [|discriminate]. inversion H; subst; clear H.
+  destruct Hin as [Hin|Hin].
+  - subst h0. apply (call_result_weaken x A); [intros s' K; apply ajoin_l; exact K|].
+    exact (acall1_sound x S h A s E1 HG Hh).
+  - apply (call_result_weaken x B); [intros s' K; apply ajoin_r; exact K|].
+    exact (IH B s h eq_refl HG Hin Hh).
+Qed.
+
+Lemma acall_sound : forall x S S' (s : tst), acall fp U lax x S = Ok S' -> G S s -> call_result x S' s.
 Proof.
   intros x S S' s H HG. destruct HG as [[h [Hin Hh]] HR].
   apply (acall_all_sound x S (a_cur S) S' s h H); [split; [exists h; split; assumption | exact HR] | exact Hin | exact Hh].
@@ -438,7 +500,8 @@ Definition GF (o : aout) (fl : flow (list tok)) : Prop :=
   | FBreak _ s => G (o_break o) s
   | FReturnOk _ _ => o_ret o = true
   | FOutOfFuel _ => True
-  | FReject _ _ | FStuck _ => False
+  | FReject _ _ => lax = true
+  | FStuck _ => False
   end.
 
 Definition run_sound (run : list stmt -> ast -> res aout) : Prop :=
@@ -471,7 +534,7 @@ Proof.
     + rewrite HK. apply orb_true_r.
   - cbn [GF o_break]. apply ajoin_l. exact H.
   - cbn [GF o_ret]. rewrite H. reflexivity.
-  - contradiction.
+  - exact H.
   - exact I.
   - contradiction.
 Qed.
@@ -524,7 +587,7 @@ Proof.
       + apply HN. exact Hb.
       + apply GF_loop_out. apply HR. apply ME. unfold exits'. apply ajoin_r. apply ajoin_r. exact Hb.
       + cbn [GF o_ret]. rewrite (MR ltac:(unfold ret'; rewrite Hb; apply orb_true_r)). reflexivity.
-      + contradiction.
+      + exact Hb.
       + exact I.
       + contradiction.
     - apply GF_loop_out. apply HR. apply ME. unfold exits'. apply ajoin_r. apply ajoin_l. apply A2. reflexivity. }
@@ -581,37 +644,42 @@ Lemma G_set_dup : forall S (s : tst) b, G S s ->
   G {| a_cur := a_cur S; a_seen := a_seen S; a_dup := Some b; a_env := a_env S |} (set_dup _ s b).
 Proof. intros S s b [Hc [Hg [Hs [_ He]]]]. unfold G. cbn. repeat split; try assumption. Qed.
 
-Theorem asexec_sound : forall n, run_sound (asexec fp U n).
+Theorem asexec_sound : forall n, run_sound (asexec fp U lax n).
 Proof.
   induction n as [|n IH]; intros ss S o H f s HG; [discriminate|].
   cbn [asexec] in H. rewrite (G_not_bot S s HG) in H.
   destruct ss as [|x r].
   - inversion H; subst; clear H. unfold texec. destruct f; [exact I | cbn [exec GF o_next]; exact HG].
   - destruct f as [|f0]; [exact I|]. unfold texec. cbn [exec].
+    assert (CALL : forall x0 S', acall fp U lax x0 S = Ok S' -> asexec fp U lax n r S' = Ok o ->
+              GF o (match call' x0 s with
+                    | Some (COk _ p s', d) => exec (list tok) t_detect t_extract t_complete fparse f0 r (bind _ s' d p)
+                    | Some (CErr _ e _, _) => FReject _ e
+                    | None => FStuck _
+                    end)).
+    { intros x0 S' Ec Hr. destruct (acall_sound _ _ _ s Ec HG) as [[p [s1 [d0 [Hc HS]]]]|[EL [e [s1 [d0 Hc]]]]]; rewrite Hc.
+      - exact (IH r S' o Hr f0 _ HS).
+      - exact EL. }
     destruct x.
-    + destruct (acall fp U (SReq ty tag d) S) as [S'|] eqn:Ec; [|discriminate].
-      destruct (acall_sound _ _ _ s Ec HG) as [p [s1 [d0 [Hc HS]]]]. rewrite Hc. exact (IH r S' o H f0 _ HS).
-    + destruct (acall fp U (SOpt ty tag d) S) as [S'|] eqn:Ec; [|discriminate].
-      destruct (acall_sound _ _ _ s Ec HG) as [p [s1 [d0 [Hc HS]]]]. rewrite Hc. exact (IH r S' o H f0 _ HS).
-    + destruct (acall fp U (SReqV fam base d) S) as [S'|] eqn:Ec; [|discriminate].
-      destruct (acall_sound _ _ _ s Ec HG) as [p [s1 [d0 [Hc HS]]]]. rewrite Hc. exact (IH r S' o H f0 _ HS).
-    + destruct (acall fp U (SOptV fam base d) S) as [S'|] eqn:Ec; [|discriminate].
-      destruct (acall_sound _ _ _ s Ec HG) as [p [s1 [d0 [Hc HS]]]]. rewrite Hc. exact (IH r S' o H f0 _ HS).
+    + destruct (acall fp U lax (SReq ty tag d) S) as [S'|] eqn:Ec; [|discriminate]. exact (CALL _ _ Ec H).
+    + destruct (acall fp U lax (SOpt ty tag d) S) as [S'|] eqn:Ec; [|discriminate]. exact (CALL _ _ Ec H).
+    + destruct (acall fp U lax (SReqV fam base d) S) as [S'|] eqn:Ec; [|discriminate]. exact (CALL _ _ Ec H).
+    + destruct (acall fp U lax (SOptV fam base d) S) as [S'|] eqn:Ec; [|discriminate]. exact (CALL _ _ Ec H).
     + exact (IH r _ o H f0 _ (G_set_dup S s b HG)).
     + apply (IH r _ o H f0). apply G_set; [exact HG|]. apply in_anat_succ. apply (proj2 (proj2 (proj2 (proj2 HG)))).
     + apply (IH r _ o H f0). apply G_set; [exact HG | apply in_anat_exact].
     + apply (IH r _ o H f0). apply G_set; [exact HG | apply in_anat_exact].
     + (* while *)
-      destruct (aloop (asexec fp U n) loop_fuel false c body S bot false) as [[E R]|] eqn:El; [|discriminate].
+      destruct (aloop (asexec fp U lax n) loop_fuel false c body S bot false) as [[E R]|] eqn:El; [|discriminate].
       cbn [o_next o_break o_ret] in H.
-      destruct (asexec fp U n r E) as [o2|] eqn:Er; [|discriminate]. inversion H; subst; clear H.
+      destruct (asexec fp U lax n r E) as [o2|] eqn:Er; [|discriminate]. inversion H; subst; clear H.
       change (ajoin bot (o_break o2)) with (o_break o2).
       exact (aloop_sound _ IH _ _ _ _ _ _ _ _ _ El r o2 (fun f1 s' Hs' => IH r E o2 Er f1 s' Hs') (Datatypes.S f0) s HG).
     + (* if *)
       destruct (asplit c S) as [[St Sf]|] eqn:Es; [|discriminate].
-      destruct (asexec fp U n th St) as [ot|] eqn:Et; [|discriminate].
-      destruct (asexec fp U n el Sf) as [oe|] eqn:Ee; [|discriminate].
-      destruct (asexec fp U n r (o_next (ojoin ot oe))) as [o2|] eqn:Er; [|discriminate]. inversion H; subst; clear H.
+      destruct (asexec fp U lax n th St) as [ot|] eqn:Et; [|discriminate].
+      destruct (asexec fp U lax n el Sf) as [oe|] eqn:Ee; [|discriminate].
+      destruct (asexec fp U lax n r (o_next (ojoin ot oe))) as [o2|] eqn:Er; [|discriminate]. inversion H; subst; clear H.
       set (bf := exec (list tok) t_detect t_extract t_complete fparse f0 (if eval' c s then th else el) s).
       assert (Hb : GF (ojoin ot oe) bf).
       { unfold bf. destruct (asplit_sound c S St Sf s Es HG) as [A1 A2]. destruct (eval' c s).
@@ -621,10 +689,10 @@ Proof.
                     (fun s' Hs' => IH r _ o2 Er f0 s' Hs')) as K.
       clearbody bf. destruct bf; exact K.
     + inversion H; subst. exact HG.
-    + discriminate.
+    + destruct lax eqn:EL; [|discriminate]. cbn [GF]. exact EL.
     + (* peek *)
-      destruct (apeek (asexec fp U n) (if all_letters then letters26 else letters7) base arms default S (a_cur S)) as [op|] eqn:Ep; [|discriminate].
-      destruct (asexec fp U n r (o_next op)) as [o2|] eqn:Er; [|discriminate]. inversion H; subst; clear H.
+      destruct (apeek (asexec fp U lax n) (if all_letters then letters26 else letters7) base arms default S (a_cur S)) as [op|] eqn:Ep; [|discriminate].
+      destruct (asexec fp U lax n r (o_next op)) as [o2|] eqn:Er; [|discriminate]. inversion H; subst; clear H.
       destruct HG as [[h [Hin Hh]] HR].
       assert (HG : G S s) by (split; [exists h; split; assumption | exact HR]).
       pose proof (apeek_sound _ IH _ _ _ _ _ _ _ Ep s h f0 HG Hin Hh) as Hp.
@@ -634,43 +702,74 @@ Proof.
       unfold texec in K. destruct (exec (list tok) t_detect t_extract t_complete fparse f0 (pick_arm l arms default) s); exact K.
     + discriminate.
     + discriminate.
-    + destruct (forallb is_empty_hd (a_cur S)) eqn:Ef; [|discriminate].
+    + (* verify complete *)
       destruct HG as [[h [Hin Hh]] HR].
       assert (HG : G S s) by (split; [exists h; split; assumption | exact HR]).
-      rewrite forallb_forall in Ef. rewrite (cur_in_complete h (cur s) Hh), (Ef h Hin).
-      exact (IH r S o H f0 (set_verified _ s true) HG).
+      rewrite (cur_in_complete h (cur s) Hh).
+      destruct lax eqn:EL.
+      * destruct (is_empty_hd h) eqn:Eh; [|exact EL].
+        apply (IH r _ o H f0 (set_verified _ s true)).
+        apply (G_with_cur S s _ h HG); [apply filter_In; split; assumption | exact Hh].
+      * destruct (forallb is_empty_hd (a_cur S)) eqn:Ef; [|discriminate].
+        rewrite forallb_forall in Ef. rewrite (Ef h Hin).
+        exact (IH r S o H f0 (set_verified _ s true) HG).
     + inversion H; subst. reflexivity.
 Qed.
 
-(* ---- a layout that passes [includes] accepts every text whose tag sequence is a word of the expression *)
+End Sound.
+
+(* ---- a layout that passes [includes] accepts every text whose tag sequence is a word of the expression;
+        a layout that passes [excludes] rejects every such text *)
 Lemma t_extract_shrinks' : forall (c : list tok) tag x c', t_extract c tag = Some (x, c') -> List.length c' < List.length c.
 Proof.
   intros c tag x c' H. unfold t_extract in H. destruct c as [|[t y] r]; [discriminate|].
   destruct (bytes_eqb t tag); [|discriminate]. inversion H; subst. cbn. lia.
 Qed.
 
-Theorem includes_accepts : forall n L R, includes fp U n L R = true -> loops_ok L = true ->
-  forall toks, matches R (map fst toks) -> Forall good toks ->
+Lemma G_start : forall fparse fp U R toks, matches R (map fst toks) -> Forall (good fparse fp U) toks ->
+  G fparse fp U (start R) (init (list tok) toks).
+Proof.
+  intros fparse fp U R toks Hm Hgood. unfold G, start, init. cbn [a_cur a_seen a_dup cur seen dup]. repeat split.
+  - destruct (hnf_live_sound R _ Hm) as [h [Hin Hh]]. exists h. split; assumption.
+  - exact Hgood.
+  - intros t Ht. discriminate.
+Qed.
+
+Theorem includes_accepts : forall fparse fp U n L R, includes fp U n L R = true -> loops_ok L = true ->
+  forall toks, matches R (map fst toks) -> Forall (good fparse fp U) toks ->
   forall f, lsize L + List.length toks + 1 <= f -> exists its, trun fparse f L toks = Accept its.
 Proof.
-  intros n L R Hinc Hloops toks Hm Hgood f Hf. unfold includes in Hinc.
-  destruct (asexec fp U n L (start R)) as [o|] eqn:Ea; [|discriminate].
+  intros fparse fp U n L R Hinc Hloops toks Hm Hgood f Hf. unfold includes in Hinc.
+  destruct (asexec fp U false n L (start R)) as [o|] eqn:Ea; [|discriminate].
   apply andb_prop in Hinc. destruct Hinc as [Hinc Hb]. apply andb_prop in Hinc. destruct Hinc as [_ Hn].
-  assert (HG : G (start R) (init (list tok) toks)).
-  { unfold G, start, init. cbn [a_cur a_seen a_dup cur seen dup]. repeat split.
-    - destruct (hnf_live_sound R _ Hm) as [h [Hin Hh]]. exists h. split; assumption.
-    - exact Hgood.
-    - intros t Ht. discriminate. }
-  pose proof (asexec_sound n L (start R) o Ea f (init (list tok) toks) HG) as K.
+  pose proof (asexec_sound fparse fp U false n L (start R) o Ea f (init (list tok) toks) (G_start fparse fp U R toks Hm Hgood)) as K.
   pose proof (exec_fuel_bound (list tok) t_detect t_extract t_complete (@List.length tok) t_extract_shrinks' fparse f L (init (list tok) toks) Hloops Hf) as NF.
   unfold trun, run. unfold texec in K.
   destruct (exec (list tok) t_detect t_extract t_complete fparse f L (init (list tok) toks)) as [s1|s1|s1|e| |]; cbn [GF] in K.
-  - exfalso. pose proof (G_not_bot _ _ K) as Z. rewrite Z in Hn. discriminate.
-  - exfalso. pose proof (G_not_bot _ _ K) as Z. rewrite Z in Hb. discriminate.
+  - exfalso. pose proof (G_not_bot _ _ _ _ _ K) as Z. rewrite Z in Hn. discriminate.
+  - exfalso. pose proof (G_not_bot _ _ _ _ _ K) as Z. rewrite Z in Hb. discriminate.
   - eexists. reflexivity.
-  - contradiction.
+  - discriminate.
   - exfalso. apply NF. reflexivity.
   - contradiction.
 Qed.
 
-End Sound.
+Theorem excludes_rejects : forall fparse fp U n L R, excludes fp U n L R = true -> loops_ok L = true ->
+  forall toks, matches R (map fst toks) -> Forall (good fparse fp U) toks ->
+  forall f, lsize L + List.length toks + 1 <= f -> exists e, trun fparse f L toks = Reject e.
+Proof.
+  intros fparse fp U n L R Hexc Hloops toks Hm Hgood f Hf. unfold excludes in Hexc.
+  destruct (asexec fp U true n L (start R)) as [o|] eqn:Ea; [|discriminate].
+  apply andb_prop in Hexc. destruct Hexc as [Hexc Hr]. apply andb_prop in Hexc. destruct Hexc as [Hexc Hb].
+  apply andb_prop in Hexc. destruct Hexc as [_ Hn]. apply negb_true_iff in Hr.
+  pose proof (asexec_sound fparse fp U true n L (start R) o Ea f (init (list tok) toks) (G_start fparse fp U R toks Hm Hgood)) as K.
+  pose proof (exec_fuel_bound (list tok) t_detect t_extract t_complete (@List.length tok) t_extract_shrinks' fparse f L (init (list tok) toks) Hloops Hf) as NF.
+  unfold trun, run. unfold texec in K.
+  destruct (exec (list tok) t_detect t_extract t_complete fparse f L (init (list tok) toks)) as [s1|s1|s1|e| |]; cbn [GF] in K.
+  - exfalso. pose proof (G_not_bot _ _ _ _ _ K) as Z. rewrite Z in Hn. discriminate.
+  - exfalso. pose proof (G_not_bot _ _ _ _ _ K) as Z. rewrite Z in Hb. discriminate.
+  - rewrite K in Hr. discriminate.
+  - eexists. reflexivity.
+  - exfalso. apply NF. reflexivity.
+  - contradiction.
+Qed.
